@@ -116,6 +116,12 @@ class SrvAdapter:
     def _harness_objects(self):
         return ()
 
+    def _hidden_ns(self):
+        return ()
+
+    def _hidden_eids(self):
+        return ()
+
     def _cb_tok(self, v):
         return getattr(v, 'tag', 'call')
 
@@ -358,7 +364,7 @@ class SrvAdapter:
         tname = {e: t for t, e in self.eid.items()}
         for ns, rs in self.sio.manager.rooms.items():
             for sid, eid in (rs.get(None) or {}).items():
-                if eid in tname:
+                if eid in tname and ns not in self._hidden_ns():
                     self.owned[tname[eid]].add(sid)
 
     def _lose(self, t, reason):
@@ -685,8 +691,11 @@ class SrvAdapter:
         for t in self.cfg['transports']:
             eio[t] = 'none' if t not in self.socks else \
                 'closed' if t in self.closed else 'open'
+        hidden = self._hidden_ns()
         rooms = {}
         for ns, rs in m.rooms.items():
+            if ns in hidden:
+                continue
             rooms[ns] = {}
             if len(rs) == 0:
                 rooms[ns]['?empty-namespace'] = {}
@@ -698,9 +707,15 @@ class SrvAdapter:
                     d[n] = tname.get(eid, '?' + str(eid))
                 rooms[ns][key] = d
         pending = {ns: sorted(self._name(s) for s in lst)
-                   for ns, lst in m.pending_disconnect.items()}
+                   for ns, lst in m.pending_disconnect.items()
+                   if ns not in hidden}
+        hidden_sids = set()
+        for ns in hidden:
+            hidden_sids.update((m.rooms.get(ns) or {}).get(None) or {})
         cb = {}
         for sid, d in m.callbacks.items():
+            if sid in hidden_sids:
+                continue
             n = self._name(sid) if sid in self.names else self._room_tok(sid)
             out = {str(k): self._cb_tok(v)
                    for k, v in d.items() if callable(v)}
@@ -723,10 +738,12 @@ class SrvAdapter:
             if s.session:
                 sess[t] = {ns: self._sess_tok(v)
                            for ns, v in s.session.items()}
-        environ = sorted(tname.get(e, '?' + str(e)) for e in sio.environ)
+        environ = sorted(tname.get(e, '?' + str(e)) for e in sio.environ
+                         if e not in self._hidden_eids())
         st = {'eio': eio, 'environ': environ,
               'nextSid': len(self.names) + 1,
-              'rooms': rooms, 'nsOrder': list(m.rooms.keys()),
+              'rooms': rooms,
+              'nsOrder': [n for n in m.rooms.keys() if n not in hidden],
               'pending': pending, 'cb': cb,
               'binbuf': binbuf, 'sess': sess,
               'residue': self._residue(),
